@@ -83,6 +83,11 @@ def build(t):
     raise ValueError(f'unknown op {op}')
 
 
+def mu_of(n):
+    """nest parameter: a Beta, or a plain Python float when the case says so"""
+    return float(n['mu']) if n.get('mu_num') else Beta(n['mu_name'], n['mu'], 1, None, 0)
+
+
 def cell(x):
     """a data cell as JSON: float (exact through repr) or None for NaN / missing"""
     if x is None:
@@ -116,7 +121,7 @@ def make_context(c, full=False):
     kw = {}
     if c.get('cnl'):
         from biogeme.nests import OneNestForCrossNestedLogit, NestsForCrossNestedLogit
-        nests = tuple(OneNestForCrossNestedLogit(nest_param=Beta(n['mu_name'], n['mu'], 1, None, 0),
+        nests = tuple(OneNestForCrossNestedLogit(nest_param=mu_of(n),
                                                  dict_of_alpha={int(k): float(v) for k, v in n['alphas']},
                                                  name=n['name']) for n in c['cnl'])
         kw['cnl_nests'] = NestsForCrossNestedLogit(choice_set=[int(r[0]) for r in c['alts']], tuple_of_nests=nests)
@@ -215,7 +220,7 @@ def run_full(c):
     def both(tag, sampled_expr, full_expr):
         r = {}
         try:
-            r['tree'] = expr_to_json(sampled_expr) if tag == 'logit' else None
+            r['tree'] = expr_to_json(sampled_expr)
             r['sample'] = [cell(x) for x in np.atleast_1d(sampled_expr.get_value_c(database=db, prepare_ids=True))]
         except Exception as e:  # noqa
             r['sample_exc'] = f'{type(e).__name__}: {e}'[:300]
@@ -235,7 +240,7 @@ def run_full(c):
 
         def mk():
             return NestsForNestedLogit(choice_set=ids, tuple_of_nests=tuple(
-                OneNestForNestedLogit(Beta(n['mu_name'], n['mu'], 1, None, 0), list(n['alts']), name=n['name'])
+                OneNestForNestedLogit(mu_of(n), list(n['alts']), name=n['name'])
                 for n in c['nested']))
         both('nested', gm.get_nested_logit(mk()), models.lognested(Vfull, None, mk(), Variable(chc)))
     if c.get('cnl'):
@@ -243,6 +248,21 @@ def run_full(c):
     out['results'] = res
     out['sample_ids'] = [[cell(db.data[f'{idc}_{j}'].iloc[i]) for j in range(out['J'])] for i in range(len(c['inds']))]
     out['log_proba'] = [[cell(db.data[f'_log_proba_{j}'].iloc[i]) for j in range(out['J'])] for i in range(len(c['inds']))]
+    JM = 0 if context.second_sample_size is None else int(context.second_sample_size)
+    out['JM'] = JM
+    nind = len(c['inds'])
+
+    def col(name, n):
+        try:
+            return [[cell(db.data[f'{name}_{j}'].iloc[i]) for j in range(n)] for i in range(nind)]
+        except Exception as e:  # noqa
+            return f'{type(e).__name__}: {e}'[:200]
+    if JM:
+        out['mev_ids'] = col(f'_MEV_{idc}', JM)
+        out['mev_weight'] = col('_MEV__mev_weight', JM)
+    if c.get('cnl'):
+        out['cnl_cols'] = {n['name']: {'first': col(f'_CNL_{n["name"]}', out['J']),
+                                       'mev': col(f'_MEV__CNL_{n["name"]}', JM)} for n in c['cnl']}
     return out
 
 
